@@ -5,6 +5,8 @@ import os
 import re
 import tempfile
 
+import copy
+
 import kernpy as kp
 from hypothesis import strategies as st
 from hypothesis.stateful import RuleBasedStateMachine, initialize, rule
@@ -27,7 +29,9 @@ RULE = ('Hypothesis RuleBasedStateMachine: @initialize draws a document (profile
         'get_header_nodes, get_voices, graph to a file and to stdout.  Invariants after every step: a deep snapshot of '
         'the document (every node, token field, sub-token, link by position, measure index, bounding boxes) is '
         'unchanged; module constants and the caller\'s own argument objects are unchanged; the result (value, or '
-        'exception type and message) equals the result of the same call on a fresh import of the same text.  In addition '
+        'exception type and message) equals the result of the same call on a fresh import of the same text, and - for '
+        'exports and queries - the result of the same call made once more immediately.  A failure that does not '
+        'reproduce in the searching process is re-executed in a new interpreter before anything is reported.  In addition '
         'a few drawn call sequences are executed in two fresh interpreters, forwards and backwards, and every call must '
         'give the same result in both orders (interpreter-global state).  Excerpt sweeps: for measure-structured scores '
         'with signature changes, ALL (from, to) ranges of one imported document are exported in a drawn order and back, '
@@ -36,6 +40,8 @@ RULE = ('Hypothesis RuleBasedStateMachine: @initialize draws a document (profile
 ASSUMPTIONS = ['state hidden outside Python attributes (ANTLR DFA caches) is only seen if it changes a result',
                'graph output is compared after canonical renaming of node<address> and #<node id> (process-global counters)']
 ENCS = list(K.ENCODINGS)
+REPEATABLE = ('dumps', 'tokens', 'unique', 'encodings', 'unique_encodings', 'frequencies', 'metacomments', 'spine_types', 'mono',
+              'count', 'first', 'spine_ids')
 CONSTS0 = SN.constants()  # taken once, when the process is still pristine
 
 
@@ -156,7 +162,14 @@ def apply(doc, o, state):
             if 'to_measure' in kw:
                 opts.to_measure = kw['to_measure']
             if 'include' in kw:
-                opts.token_categories = TC.valid(include=kw['include'], exclude=kw.get('exclude'))
+                sel = TC.valid(include=kw['include'], exclude=kw.get('exclude'))
+                if o.get('reset') or o['shape'] == 'list':
+                    # the caller keeps ONE list object for its categories and edits it in place
+                    lst = state.setdefault('catlist', [])
+                    lst[:] = sorted(sel, key=lambda c: c.name)
+                    opts.token_categories = lst
+                else:
+                    opts.token_categories = sel
             if o.get('reset'):
                 if 'from_measure' not in kw:
                     opts.from_measure = None
@@ -167,9 +180,24 @@ def apply(doc, o, state):
             if ex is None:
                 ex = state['exporter'] = kp.Exporter()
             before = repr(sorted((k, sorted(v, key=repr) if isinstance(v, (set, frozenset)) else v) for k, v in vars(opts).items()))
+            state['toggle'] = None
             try:
                 r = ex.export_string(doc, opts)
-                r = [r, ex.get_spine_types(doc), ex.get_spine_types(doc, ['**kern'])]
+                r2 = None
+                if isinstance(opts.token_categories, list) and opts.token_categories is state.get('catlist'):
+                    # ... edits its category list in place and exports again at once
+                    lst = opts.token_categories
+                    tg = TC.DECORATION if len(lst) % 2 else TC.DURATION
+                    state['toggle'] = (list(lst), tg)
+                    if tg in lst:
+                        lst.remove(tg)
+                    else:
+                        lst.append(tg)
+                    try:
+                        r2 = ex.export_string(doc, opts)
+                    finally:
+                        lst[:] = state['toggle'][0]  # and puts it back
+                r = [r, r2, ex.get_spine_types(doc), ex.get_spine_types(doc, ['**kern'])]
             finally:
                 after = repr(sorted((k, sorted(v, key=repr) if isinstance(v, (set, frozenset)) else v) for k, v in vars(opts).items()))
                 if before != after:
@@ -308,6 +336,12 @@ class Session:
     def _step(self, o):
         self.n += 1
         got = apply(self.kdoc, o, self.state)
+        if o['op'] in REPEATABLE:
+            # the same call again, immediately: a call that leaves something behind (also when it raises) shows here
+            again = apply(self.kdoc, o, self.state)
+            if again != got:
+                raise Bad('not-repeatable', f'step {self.n} {o}: the same call twice in a row gives two different results\n'
+                                            f'--- first\n{str(got)[:600]}\n--- second\n{str(again)[:600]}\n{self.text}', op=o['op'])
         fresh_doc, _ = kp.loads(self.text)
         ref = apply(fresh_doc, o, {'doc_keys': self.doc_keys})  # a fresh document AND a fresh caller-side options object
         if isinstance(got, list) and got and got[0] in ('ARG-MUTATED', 'OPTIONS-MUTATED'):
@@ -323,8 +357,16 @@ class Session:
             opts = self.state['options']
             try:
                 ex_ = kp.Exporter()
-                ref2 = ex_.export_string(fresh_doc, opts)
-                ref2 = [ref2, kp.Exporter().get_spine_types(fresh_doc), kp.Exporter().get_spine_types(fresh_doc, ['**kern'])]
+                opts_new = kp.ExportOptions()  # an equal options object built from scratch (new containers)
+                for k_, v_ in vars(opts).items():
+                    setattr(opts_new, k_, copy.copy(v_))
+                ref2 = ex_.export_string(fresh_doc, opts_new)
+                ref3 = None
+                if self.state.get('toggle'):
+                    lst0, tg = self.state['toggle']
+                    opts_new.token_categories = [c_ for c_ in lst0 if c_ is not tg] if tg in lst0 else lst0 + [tg]
+                    ref3 = kp.Exporter().export_string(fresh_doc, opts_new)
+                ref2 = [ref2, ref3, kp.Exporter().get_spine_types(fresh_doc), kp.Exporter().get_spine_types(fresh_doc, ['**kern'])]
             except Exception as e:  # noqa
                 ref2 = ['EXC', type(e).__name__, str(e)]
             if got != ref2:
